@@ -132,7 +132,7 @@ Example C06_nonvacuous :
   end.
 Proof. cbn zeta. vm_compute. repeat split; discriminate. Qed.
 
-(* ======================================================================================================================
+(* ===============================================================================================================
    EVERY WRITING ENTRY POINT (Entry.v).  `ecall` is one call of write_arrays (EArrays), of write_dicts or a backend writer called
    directly (EDicts: no overwrite parameter), of geff.write (EApi), of from_ctc_to_geff / `geff convert-ctc` (ECtc: own guard, the
    label-volume export -- which lands inside the target when the segmentation target lies in the geff directory --, the graph logic
@@ -370,3 +370,59 @@ Proof.
   split; [apply TrackMateProps.wf_tmb_sound; vm_compute; reflexivity|].
   vm_compute. repeat split.
 Qed.
+(* =====================================================================================================================
+   DEEPENING (c03x): refusal for write_dicts and for the backend writers behind geff.write (DictsCrash.v).
+   ===================================================================================================================== *)
+From Geff Require Import Dicts Backends BackendsMd DictsCrash.
+
+(* geff.write(graph, store) without overwrite on a location that holds a geff: FileExistsError and NO mutation, whichever backend
+   the graph belongs to and whatever it would have written (w is arbitrary: the backend is not even entered) *)
+Theorem C06_backend_refuse : forall k pre (w : M unit),
+  exists_geff k pre = true -> api_ov k false w (init pre) = (init pre, Err FileExistsError).
+Proof. exact api_ov_refuse. Qed.
+Print Assumptions C06_backend_refuse.
+
+(* api_ov with overwrite=False is the api wrapper the C03 theorems are stated with *)
+Theorem C06_api_ov_false : forall k w s, api_ov k false w s = Backends.api_write k w s.
+Proof. exact api_ov_false. Qed.
+Print Assumptions C06_api_ov_false.
+
+(* write_dicts (it has no overwrite parameter: write_arrays is reached with its default False) on a location that holds a geff:
+   no mutation for ANY dictionaries; FileExistsError, unless the dictionaries themselves are rejected first *)
+Theorem C06_write_dicts_refuse : forall k pre g nn en md,
+  exists_geff k pre = true ->
+  write_dicts k g nn en md (init pre)
+  = (init pre, Err (match dicts_wgraph g nn en with Ok _ => FileExistsError | Err e => e end)).
+Proof. exact write_dicts_refuse. Qed.
+Print Assumptions C06_write_dicts_refuse.
+
+(* the backends called directly (NxBackend.write(graph, store) ... : no wrapper guard) refuse through write_arrays' own guard *)
+Theorem C06_nx_direct_refuse : forall k pre d g mdc axes mdtok,
+  exists_geff k pre = true ->
+  exists e, nx_write_md k d g mdc axes mdtok (init pre) = (init pre, Err e).
+Proof. intros k pre d g mdc axes mdtok H. unfold nx_write_md, bind, lift. destruct (dict_md mdc d axes mdtok) as [m|e]; [|eexists; reflexivity].
+  rewrite (write_dicts_refuse k pre g _ _ m H). eexists. reflexivity. Qed.
+Print Assumptions C06_nx_direct_refuse.
+
+(* geff.write of a networkx graph with overwrite is Write.api_write on the arrays write_dicts builds: C06_api_overwrite_partial /
+   C06_api_overwrite_store_object / C06_api_overwrite_beside (known finding) are statements about the real entry point *)
+Theorem C06_api_nx_is_api_write : forall k ov d g axes mdtok axtok md w s,
+  fresh_md d axes mdtok axtok = Ok md ->
+  dicts_wgraph g (keys_of (map snd (d_nodes g))) (keys_of (map snd (d_edges g))) = Ok w ->
+  api_ov k ov (nx_write k d g axes mdtok axtok) s = Write.api_write k w md true ov s.
+Proof. exact api_nx_arrays. Qed.
+Print Assumptions C06_api_nx_is_api_write.
+
+Example C06_dicts_nonvacuous :
+  let g := mkdg [(4%Z, [("t", PFloat 1024)]); (9%Z, [("t", PFloat 2048)])] [((4%Z, 9%Z), [])] in
+  let h := mkdg [(1%Z, [("u", PInt 5)])] [] in
+  let md := mkmd true None [] [] 0%Z in
+  let s1 := fst (run (write_dicts KObj g ["t"] [] md) None) in
+  exists_geff KObj s1 = true /\
+  run (write_dicts KObj h ["u"] [] md) s1 = (s1, Err FileExistsError) /\
+  run (api_ov KObj false (nx_write KObj true h None 0 0)) s1 = (s1, Err FileExistsError) /\
+  match fst (run (api_ov KObj true (nx_write KObj true h None 0 0)) s1) with
+  | Some root => get_path root ["nodes"; "props"; "t"] = None /\ get_path root ["nodes"; "props"; "u"] <> None
+  | None => False
+  end.
+Proof. cbn zeta. vm_compute. repeat split; discriminate. Qed.
